@@ -25,6 +25,9 @@ def rand_headers(R, pool=None):
     return hs
 
 
+NONASCII_NAMES = ["\u00dc-Tag", "\u00fc-tag", "X-\u212aelvin", "x-kelvin"]
+
+
 def render(R, direction, minor, headers, body=b"", fold=True, eol_choice=None):
     """Message bytes and the header list a faithful reader must return (names as sent, values stripped, folds appended)."""
     def eol():
@@ -88,7 +91,8 @@ def rand_http_sig(R, headers=None):
             items.append(n + (("=[%s]" % R.choice(["keep", "e", "Mozilla", ",", "a,b"])) if R.random() < 0.3 else ""))
     present = {h[0].lower() for h in headers} if headers else set()
     cand = [n for n in NAMES if n.lower() not in present] if R.random() < 0.8 else NAMES
-    absent = ",".join(case_variant(R, x) for x in R.sample(cand, min(len(cand), R.choice([0, 0, 1, 2]))))
+    absent = ",".join([case_variant(R, x) for x in R.sample(cand, min(len(cand), R.choice([0, 0, 1, 2])))] +
+                      ([R.choice(["\u00dc-Tag", "X-\u212aelvin", "\u0130d", "x-\u00e9t\u00c9"])] if R.random() < 0.1 else []))
     sw = R.choice(["", "", "Firefox/", "curl", "Apache", "MSIE", "nginx", " Chrom", " Chrom", "Chrom", " Safari", "E 8", " ;y"])
     return ":".join([ver, ",".join(items), absent, sw])
 
